@@ -29,11 +29,11 @@ pub struct Rt {
     /// a future was polled again after it completed
     pub fut_repoll: Cell<u32>,
     /// partially consumed inner iterators alive
-    pub live_inner: Cell<i32>,
+    pub live_inner: [Cell<i32>; 2],
     /// futures polled at least once and not yet complete
     pub live_fut: Cell<i32>,
     /// inner streams that yielded at least one item and are not exhausted
-    pub live_stream: Cell<i32>,
+    pub live_stream: [Cell<i32>; 2],
     /// per top-level pull: sources that answered Ready / Pending (bit per source id)
     pub ready_in_pull: Cell<u32>,
     pub pend_in_pull: Cell<u32>,
@@ -63,9 +63,11 @@ pub fn rt_reset() {
         r.later_fired.set(0);
         r.poison.set(0);
         r.fut_repoll.set(0);
-        r.live_inner.set(0);
+        r.live_inner[0].set(0);
+        r.live_inner[1].set(0);
         r.live_fut.set(0);
-        r.live_stream.set(0);
+        r.live_stream[0].set(0);
+        r.live_stream[1].set(0);
         r.ready_in_pull.set(0);
         r.pend_in_pull.set(0);
         r.ended.set(0);
@@ -192,7 +194,7 @@ impl Item for (u8, u8) {
 }
 impl Item for Inner {
     fn poison() -> Option<Inner> {
-        Some(Inner { items: vec![15], vague: false })
+        Some(Inner { items: vec![15], vague: false, origin: 1 })
     }
 }
 impl<Z: FuseKind> Item for SimStream<u8, Z> {}
@@ -328,8 +330,9 @@ pub struct SimStream<T, Z> {
     pub s: Script<T>,
     /// counted in `live_stream`
     live: bool,
-    /// inner streams (created by closures) count as live while partially consumed
-    pub inner: bool,
+    /// inner streams count as live while partially consumed: Some(0) = created by a
+    /// `flat_map_stream` closure, Some(1) = an item fed to `flatten_stream`
+    pub inner: Option<u8>,
     _m: PhantomData<fn() -> Z>,
 }
 impl<T: Clone, Z> Clone for SimStream<T, Z> {
@@ -339,10 +342,10 @@ impl<T: Clone, Z> Clone for SimStream<T, Z> {
 }
 impl<T, Z> SimStream<T, Z> {
     pub fn new(s: Script<T>) -> Self {
-        SimStream { s, live: false, inner: false, _m: PhantomData }
+        SimStream { s, live: false, inner: None, _m: PhantomData }
     }
-    pub fn new_inner(s: Script<T>) -> Self {
-        SimStream { s, live: false, inner: true, _m: PhantomData }
+    pub fn new_inner(s: Script<T>, origin: u8) -> Self {
+        SimStream { s, live: false, inner: Some(origin & 1), _m: PhantomData }
     }
     pub fn into_items(self) -> std::vec::IntoIter<T>
     where
@@ -351,9 +354,12 @@ impl<T, Z> SimStream<T, Z> {
         self.s.items.clone().into_iter()
     }
     fn set_live(&mut self, v: bool) {
-        if self.inner && self.live != v {
-            self.live = v;
-            RT.with(|r| r.live_stream.set(r.live_stream.get() + if v { 1 } else { -1 }));
+        if let Some(o) = self.inner {
+            if self.live != v {
+                self.live = v;
+                let o = o as usize;
+                RT.with(|r| r.live_stream[o].set(r.live_stream[o].get() + if v { 1 } else { -1 }));
+            }
         }
     }
 }
@@ -463,25 +469,29 @@ pub struct Inner {
     pub items: Vec<u8>,
     /// vague (but honest) size hint
     pub vague: bool,
+    /// 0 = created by a `flat_map` closure, 1 = an item fed to `flatten`
+    pub origin: u8,
 }
 pub struct InnerIter {
     items: Vec<u8>,
     pos: usize,
     vague: bool,
     live: bool,
+    origin: u8,
 }
 impl IntoIterator for Inner {
     type Item = u8;
     type IntoIter = InnerIter;
     fn into_iter(self) -> InnerIter {
-        InnerIter { items: self.items, pos: 0, vague: self.vague, live: false }
+        InnerIter { items: self.items, pos: 0, vague: self.vague, live: false, origin: self.origin }
     }
 }
 impl InnerIter {
     fn set_live(&mut self, v: bool) {
         if self.live != v {
             self.live = v;
-            RT.with(|r| r.live_inner.set(r.live_inner.get() + if v { 1 } else { -1 }));
+            let o = (self.origin & 1) as usize;
+            RT.with(|r| r.live_inner[o].set(r.live_inner[o].get() + if v { 1 } else { -1 }));
         }
     }
 }
